@@ -141,10 +141,20 @@ Http::ContentLengthInterpreter::checkList(const String &list)
     const char *pos = nullptr;
     const char *item = nullptr;;
     int ilen = -1;
+    bool sawItem = false;
     while (strListGetItem(&list, ',', &item, &ilen, &pos)) {
+        sawItem = true;
         if (!checkValue(item, ilen) && sawBad)
             break;
         // keep going after a duplicate value to find conflicting ones
+    }
+
+    if (!sawItem) {
+        // a field made of list separators only ("Content-Length: ,") states no
+        // length at all; dropping it silently would turn a message with a
+        // malformed Content-Length into one without a body
+        debugs(55, debugLevel, "WARNING: Empty list-like" << Raw("Content-Length", list.rawBuf(), list.size()));
+        sawBad = true;
     }
     return false; // no need to keep this list field; it will be sanitized away
 }
